@@ -193,8 +193,9 @@ def run(tier, seed):
                 got = []
                 iodump.parse_dump_data = lambda data, *a, **kw: (got.append(bytes(data)), [])[1]
                 path = os.path.join(tmpd, 'dump.txt')
+                eol = rng.choice(['\n', '\n', '\r\n'])      # dump files written on either kind of system
                 with open(path, 'w', newline='') as f:
-                    f.write(''.join(t if t.endswith('\n') else t + '\n' for t in text))
+                    f.write(''.join((t[:-1] if t.endswith('\n') else t) + eol for t in text))
                 try:
                     with common.deadline(common.call_limit()):
                         iodump.parse_dump_file(path, os.path.join(tmpd, 'no_header.H'), os.path.join(tmpd, 'no_strings'))
